@@ -448,17 +448,17 @@ func chain(k int) []Op {
 func corpus() []scenario {
 	rep := func(s string, n int) string { return strings.TrimSuffix(strings.Repeat(s+"/", n), "/") }
 	return []scenario{
-		// replays of the defects repaired by fix commit e12e6cc
+		// replays of the defects repaired by fix commits e12e6cc and ba6ef02 (fixed/...)
 		{"fixed/seek-past-eof-then-write", true, []Op{wfile("f", "abc"), open("f", fl(2)), seek(0, 7, 0), write(0, "XY"), p1("ReadFile", "f"), seek(0, 0, 0), read(0, 20), p1("Stat", "f")}},
 		{"fixed/seek-past-eof-empty-file", true, []Op{p1("Create", "f"), seek(0, 3, 0), write(0, "Z"), p1("ReadFile", "f"), seek(0, 2, 2), write(0, ""), write(0, "Q"), p1("ReadFile", "f")}},
 		{"fixed/append-trunc-then-write", true, []Op{wfile("f", "hello"), open("f", fl(1, "app", "trunc")), write(0, "xy"), p1("ReadFile", "f"), write(0, "z"), p1("ReadFile", "f")}},
 		{"fixed/append-trunc-rdwr-create", true, []Op{wfile("f", "hello"), open("f", fl(2, "app", "trunc", "creat")), write(0, "xy"), seek(0, 0, 0), read(0, 10), p1("ReadFile", "f")}},
 		// known divergences from the reference
 		{"corner/remove-nonempty-dir", false, []Op{mkdir("d"), wfile("d/f", "x"), p1("Remove", "d"), p1("ReadDir", "/"), p1("Stat", "d/f"), mkdir("d"), p1("ReadDir", "d")}},
-		{"corner/negative-seek", true, []Op{wfile("f", "hello"), open("f", fl(2)), seek(0, -3, 0), seek(0, -1, 1), seek(0, -9, 2), seek(0, 1, 0), read(0, 2)}},
-		{"corner/negative-seek-then-io", false, []Op{wfile("f", "hello"), open("f", fl(2)), seek(0, -3, 0), read(0, 2), write(0, "x"), write(0, ""), readat(0, 2, -1), seek(0, 1, 0), read(0, 2), p1("ReadFile", "f")}},
+		{"fixed/negative-seek", true, []Op{wfile("f", "hello"), open("f", fl(2)), seek(0, -3, 0), seek(0, -1, 1), seek(0, -9, 2), seek(0, 1, 0), read(0, 2)}},
+		{"fixed/negative-seek-then-io", true, []Op{wfile("f", "hello"), open("f", fl(2)), seek(0, -3, 0), read(0, 2), write(0, "x"), write(0, ""), readat(0, 2, -1), seek(0, 1, 0), read(0, 2), p1("ReadFile", "f")}},
 		{"corner/excl-ignored", true, []Op{wfile("f", "x"), open("f", fl(2, "creat", "excl")), open("g", fl(2, "creat", "excl")), p1("ReadDir", ".")}},
-		{"corner/nil-map-panic", false, []Op{wfile("f", "x"), symlink("t", "f/x"), Op{K: "Mknod", P: "f/x", Perm: 0o644, Dev: 259}, link("f", "f/x"), mkdir("f/x"), p1("Readlink", "f/x"), p1("Remove", "f/x"), p1("ReadDir", "/")}},
+		{"fixed/nil-map-panic", true, []Op{wfile("f", "x"), symlink("t", "f/x"), Op{K: "Mknod", P: "f/x", Perm: 0o644, Dev: 259}, link("f", "f/x"), mkdir("f/x"), p1("Readlink", "f/x"), p1("Remove", "f/x"), p1("ReadDir", "/")}},
 		{"corner/lstat-follows", true, []Op{wfile("f", "hello"), symlink("f", "l"), p1("Lstat", "l"), p1("Stat", "l"), symlink("nowhere", "dl"), p1("Lstat", "dl"), p1("Stat", "dl"), p1("Readlink", "dl"), p1("ReadDir", ".")}},
 		{"corner/open-mode", true, []Op{wfile("f", "hello"), open("f", fl(0)), write(0, "XY"), p1("ReadFile", "f"), open("f", fl(1)), read(1, 3), readat(1, 2, 1)}},
 		{"corner/append-offset", true, []Op{wfile("f", "hello"), open("f", fl(2, "app")), seek(0, 0, 0), write(0, "XY"), p1("ReadFile", "f"), open("f", fl(1, "app")), open("f", fl(1)), seek(2, 0, 2), write(2, "++"), write(1, "!"), p1("ReadFile", "f")}},
